@@ -42,6 +42,8 @@ func cmdHarness(args []string) {
 	concrete := fs.Int64("concrete", -1, "run concretely with this seed")
 	trace := fs.Bool("trace", false, "trace instructions")
 	wall := fs.Duration("wall", 10*time.Minute, "wall limit")
+	shard := fs.String("shard", "", "k/n: explore only shard k of n")
+	thorough := fs.Bool("thorough", false, "thorough bounds")
 	fs.Parse(args)
 	if fs.NArg() < 2 {
 		fmt.Fprintln(os.Stderr, "usage: vcheck harness <pkgkey> <VH_name>...")
@@ -62,7 +64,10 @@ func cmdHarness(args []string) {
 			os.Exit(2)
 		}
 		stats := &SolverStats{}
-		opt := RunOpts{CapMs: *capMs, Wall: *wall, Concrete: *concrete >= 0, Seed: uint64(*concrete), Trace: *trace}
+		opt := RunOpts{CapMs: *capMs, Wall: *wall, Concrete: *concrete >= 0, Seed: uint64(*concrete), Trace: *trace, Thorough: *thorough}
+		if *shard != "" {
+			fmt.Sscanf(*shard, "%d/%d", &opt.Shard, &opt.Shards)
+		}
 		res := RunHarness(ld, key, name, opt, stats)
 		printResult(res)
 	}
